@@ -32,6 +32,11 @@ pub mod pgen {
     include!(concat!(env!("OUT_DIR"), "/pcorpus_gen.rs"));
 }
 
+#[allow(warnings, clippy::all)]
+pub mod pgen2 {
+    include!(concat!(env!("OUT_DIR"), "/pcorpus2_gen.rs"));
+}
+
 #[global_allocator]
 static GLOBAL: alloc::Counting = alloc::Counting;
 
